@@ -118,6 +118,9 @@ func (s *OAEPSession) SetParameter(xB []byte, ownerKey *rsa.PrivateKey) (err err
 	if ownerKey == nil {
 		return fmt.Errorf("owner key must be an in-memory RSA private key (i.e. not a TPM)")
 	}
+	if len(s.SEK) > 0 {
+		return fmt.Errorf("key exchange session is already complete (parameter already set?)")
+	}
 
 	// Decrypt xB
 	s.xB, err = rsa.DecryptOAEP(sha256.New(), nil, ownerKey, xB, nil)
